@@ -1,17 +1,27 @@
 import NmlVerif.Props.C07
 import NmlVerif.Gen.Glue
+import NmlVerif.Gen.Handlers
 /-!
-# C07 — the obligation on the table extracted from the current working tree (re-checked on every run)
+# C07 — the obligations on the tables extracted from the current working tree (re-checked on every run)
 
-`Gen/Glue.lean` is rewritten by `translators/glue_extract.py` whenever the scanned modules change; this module then
-rebuilds.  `c07_table_ok` fails as soon as some entry point may read first a shared variable that some entry point may
-write, unless that variable is a listed known finding: a NEW shared mutable (a memoising module-level dict, a new
-mutable default, a class-level table) breaks it.
+`Gen/Glue.lean` is rewritten by `translators/glue_extract.py` and `Gen/Handlers.lean` by
+`translators/handler_extract.py` whenever the scanned modules change; this module then rebuilds.
+
+* `c07_table_ok` fails as soon as some entry point may read first a shared variable that some entry point may write,
+  unless that variable is a listed known finding, a reviewed memo cache or a configuration switch: a NEW shared mutable
+  (a memoising module-level dict, a new mutable default, a class-level table) breaks it.
+* `c07_reach_scanned`: every module that a loader entry point can import is one of the scanned modules.
+* `c07_env_only_config`: only the configuration API writes a configuration switch.
+* `c07_handlers_private`, `c07_gen_cfg_private`, `c07_handler_use_gen`: every attribute a `NetworkBuilder` handler
+  touches is private to the instance; the sharing configuration extracted from the source is "nothing shared"; the
+  extracted access pattern of the handlers is the hand model's.
+* `c07_reuse_table_ok`: per-OBJECT state (one parser / builder object used for several files) that the next use may
+  see, outside the listed open findings.
 -/
 namespace NmlVerif.C07
 open NmlVerif.Glue
 
-/-! ## known findings and reviewed memo caches -/
+/-! ## known findings, reviewed memo caches, configuration switches -/
 
 /-- open findings `C07:shared-mutable:<name>` of `known_findings.d/C07.json` (names of violating shared variables);
     empty since the class-level tables of `NetworkBuilder` and the `indices={}` default of `OptimizedList` are
@@ -22,34 +32,176 @@ def Known : List String := []
     `cache[key]`-or-compute of a function of never-written class constants, so that no result depends on their
     content (the assumption is explicit in `c07_loaders_history_independent`: `RespectsInv` with an invariant).
     `GeneratedsSuperSuper._get_members` caches, per class name, the list of `member_data_items_` of the class and its
-    ancestors in `cls.__all_members_`. -/
+    ancestors in `cls.__all_members_`; `get_nml2_class_hierarchy` caches the class hierarchy (a function of the class
+    definitions) in `cls.__nml_hier` — the latter is not reached from any loader entry point, only from the pseudo
+    entry that stands for all methods of the document classes. -/
 def Benign : List String :=
-  ["neuroml/nml/generatedssupersuper.py::GeneratedsSuperSuper._GeneratedsSuperSuper__all_members_"]
+  ["neuroml/nml/generatedssupersuper.py::GeneratedsSuperSuper._GeneratedsSuperSuper__all_members_",
+   "neuroml/nml/generatedssupersuper.py::GeneratedsSuperSuper._GeneratedsSuperSuper__nml_hier"]
+
+/-- configuration switches: read first by entry points, written by the user's configuration calls only
+    (`neuroml.enable/disable_build_time_validation`, obligation `c07_env_only_config`).  Their current value is part
+    of the INPUT of a load (hypothesis `henv` of `c07_loaders_history_independent`), not history:
+    `NetworkBuilder.handle_population` → `nml_doc.append` → `add` validates the document only while the switch is on. -/
+def Env : List String := ["neuroml/build_time_validation.py::ENABLED"]
+
+/-- process-global state of OTHER libraries that loader entry points reach through library calls, reviewed one by
+    one (kind `external` of the table; every configuration call listed in the translator and EVERY call through a
+    private member of an imported library becomes such a variable):
+    * the `warnings` filter list — `NeuroMLLoader` / `_read_neuroml2` switch warnings off and reset the filters around
+      a parse: changes which warnings a later call PRINTS, never a document;
+    * the root `logging` configuration — `NeuroMLHdf5Loader` calls `logging.basicConfig`: log output only;
+    * PyTables' registry of open files, as far as `tables.open_file` touches it — every load registers the handle it
+      opens and `close()`s that very handle in a `finally`: a load sees and removes ITS OWN entry only.  Any other
+      access to the registry (`tables.file._open_files…`: a private member) is a different variable and not listed. -/
+def External : List String :=
+  ["ext:warnings.filters", "ext:logging.root-config", "ext:tables.open-file-registry(own handle)"]
 
 variable {V R A : Type}
 
-/-! ## the obligation on the extracted table (re-checked on every run) -/
+/-! ## the obligations on the extracted table (re-checked on every run) -/
 
 /-- every variable mentioned by a summary is declared -/
 theorem c07_table_wf : NmlVerif.Gen.Glue.table.wf = true := by decide +kernel
 
-/-- **no violating shared variable outside `Known ++ Benign`** in the modules as they are now -/
-theorem c07_table_ok : NmlVerif.Gen.Glue.table.okModulo NmlVerif.Gen.Glue.names (Known ++ Benign) = true := by
+/-- **no violating shared variable outside `Known ++ Benign ++ External ++ Env`** in the modules as they are now -/
+theorem c07_table_ok :
+    NmlVerif.Gen.Glue.table.okModulo NmlVerif.Gen.Glue.names (Known ++ ((Benign ++ External) ++ Env)) = true := by
   decide +kernel
+
+/-- **only the configuration API writes a configuration switch** -/
+theorem c07_env_only_config :
+    NmlVerif.Gen.Glue.table.envOnly NmlVerif.Gen.Glue.names Env NmlVerif.Gen.Glue.envEntries = true := by
+  decide +kernel
+
+/-- **the scan covers the real reach**: every module in the import closure of the modules holding loader entry points
+    (every import statement, function-level ones included) is one of the scanned modules -/
+theorem c07_reach_scanned : subsetStr NmlVerif.Gen.Glue.reach NmlVerif.Gen.Glue.scanned = true := by decide +kernel
 
 /-- **C07 for the loader entry points as extracted.**  For every semantics respecting the extracted summaries (with an
     invariant `Inv` under which the reviewed memo caches do not influence results), every entry point / handler of the
     scanned modules none of whose read-first variables is an open finding returns the same result after any two
-    histories of calls of entries of the table (the hypothesis about `Known` is empty while `Known = []`). -/
+    histories of calls of entries of the table — configuration calls included — that leave the configuration switches
+    with the same values (the hypothesis about `Known` is empty while `Known = []`). -/
 theorem c07_loaders_history_independent (Inv : GState V → Prop) (sem : EntrySummary → A → GState V → GState V × R)
     (hsem : ∀ e ∈ NmlVerif.Gen.Glue.table.entries, ∀ a,
-      RespectsInv Inv (idsOf NmlVerif.Gen.Glue.names Benign) (sem e a) e.rbw e.writes)
+      RespectsInv Inv (idsOf NmlVerif.Gen.Glue.names (Benign ++ External)) (sem e a) e.rbw e.writes)
     (e : EntrySummary) (he : e ∈ NmlVerif.Gen.Glue.table.entries)
     (hk : ∀ v ∈ e.rbw, ∀ s, NmlVerif.Gen.Glue.names[v]? = some s → s ∉ Known) (a : A)
     (h h' : List (Call A)) (hh : ∀ c ∈ h, c.entry ∈ NmlVerif.Gen.Glue.table.entries)
-    (hh' : ∀ c ∈ h', c.entry ∈ NmlVerif.Gen.Glue.table.entries) (g : GState V) (hg : Inv g) :
+    (hh' : ∀ c ∈ h', c.entry ∈ NmlVerif.Gen.Glue.table.entries) (g : GState V) (hg : Inv g)
+    (henv : AgreeOn (idsOf NmlVerif.Gen.Glue.names Env) (runHist sem h g) (runHist sem h' g)) :
+    (sem e a (runHist sem h g)).2 = (sem e a (runHist sem h' g)).2 := by
+  refine c07_history_independent_env _ Inv _ (idsOf NmlVerif.Gen.Glue.names Env) sem hsem e he ?_ a h h' hh hh' g hg henv
+  have h0 := entry_ok_of_okModulo _ _ Known ((Benign ++ External) ++ Env) c07_table_ok e he hk
+  rw [badIgn_eq_nil_iff] at h0 ⊢
+  intro v hv hnot
+  refine h0 v hv (fun hm => hnot ?_)
+  obtain ⟨s, hs, hl⟩ := mem_idsOf_iff.1 hm
+  rcases List.mem_append.1 hl with hb | henv'
+  · exact List.mem_append.2 (Or.inl (mem_idsOf hs hb))
+  · exact List.mem_append.2 (Or.inr (mem_idsOf hs henv'))
+
+/-- **… and after any two histories of loader calls, with no hypothesis about the switches**: histories that contain
+    no configuration call (entries outside `Gen.Glue.envEntries`: loader entry points, parser and handler methods,
+    container and document methods) cannot flip a switch (`c07_env_only_config`). -/
+theorem c07_loaders_history_independent_of_loader_histories (Inv : GState V → Prop)
+    (sem : EntrySummary → A → GState V → GState V × R)
+    (hsem : ∀ e ∈ NmlVerif.Gen.Glue.table.entries, ∀ a,
+      RespectsInv Inv (idsOf NmlVerif.Gen.Glue.names (Benign ++ External)) (sem e a) e.rbw e.writes)
+    (e : EntrySummary) (he : e ∈ NmlVerif.Gen.Glue.table.entries)
+    (hk : ∀ v ∈ e.rbw, ∀ s, NmlVerif.Gen.Glue.names[v]? = some s → s ∉ Known) (a : A)
+    (h h' : List (Call A))
+    (hh : ∀ c ∈ h, c.entry ∈ NmlVerif.Gen.Glue.table.entries ∧ c.entry.name ∉ NmlVerif.Gen.Glue.envEntries)
+    (hh' : ∀ c ∈ h', c.entry ∈ NmlVerif.Gen.Glue.table.entries ∧ c.entry.name ∉ NmlVerif.Gen.Glue.envEntries)
+    (g : GState V) (hg : Inv g) :
+    (sem e a (runHist sem h g)).2 = (sem e a (runHist sem h' g)).2 := by
+  have keep : ∀ (l : List (Call A)),
+      (∀ c ∈ l, c.entry ∈ NmlVerif.Gen.Glue.table.entries ∧ c.entry.name ∉ NmlVerif.Gen.Glue.envEntries) →
+      AgreeOn (idsOf NmlVerif.Gen.Glue.names Env) (runHist sem l g) g := fun l hl =>
+    c07_loader_histories_keep_env _ Inv _ _ sem hsem l
+      (fun c hc => ⟨(hl c hc).1, envOnly_spec c07_env_only_config (hl c hc).1 (hl c hc).2⟩) g hg
+  exact c07_loaders_history_independent Inv sem hsem e he hk a h h' (fun c hc => (hh c hc).1)
+    (fun c hc => (hh' c hc).1) g hg (fun v hv => (keep h hh v hv).trans (keep h' hh' v hv).symm)
+
+/-! ## `NetworkBuilder`: the handler methods' attributes (Gen/Handlers.lean) -/
+
+open NmlVerif.NetBuilder
+
+/-- the seven tables of the model exist as attributes of the class -/
+theorem c07_tables_exist :
+    tablesExist NmlVerif.Gen.Handlers.builderAttrs NmlVerif.Gen.Handlers.tableIds = true := by decide
+
+/-- **every attribute a handler method touches is private to the instance**: none is a class-level mutable object
+    that `__init__` does not replace -/
+theorem c07_handlers_private :
+    handlersPrivate NmlVerif.Gen.Handlers.builderAttrs NmlVerif.Gen.Handlers.touch = true := by decide
+
+/-- the sharing configuration extracted from the source: no table is shared between builder instances -/
+theorem c07_gen_cfg_private :
+    cfgOfAttrs NmlVerif.Gen.Handlers.builderAttrs NmlVerif.Gen.Handlers.tableIds = Cfg.allPrivate := by decide
+
+/-- **generated = hand model**: which tables each handler looks up / stores into / mutates through, extracted from
+    `NetworkBuilder.py`, is the access pattern of the model's handlers -/
+theorem c07_handler_use_gen : NmlVerif.Gen.Handlers.use = modelUse NmlVerif.Gen.Handlers.builderResets := by decide
+
+/-- **builders of the tree under test**: with the sharing configuration extracted from the source, an interleaved run
+    of two builders is, builder by builder, the solo run -/
+theorem c07_builders_independent_tree (es : List (Bool × HCall)) (w : World) (who : Bool) :
+    (runWorld (cfgOfAttrs NmlVerif.Gen.Handlers.builderAttrs NmlVerif.Gen.Handlers.tableIds) es w).get who =
+      brun (callsOf who es) (w.get who) := by
+  rw [c07_gen_cfg_private]
+  exact c07_world_private es w who
+
+/-! ## one object used for several files (Gen/Handlers.lean) -/
+
+/-- open finding `C07:reuse:*` of `known_findings.d/C07.json`: instance attributes that a later use of the same object
+    may read before assigning them.  `NetworkBuilder`: `handle_document_start` makes a new document but keeps
+    `self.network` and the seven tables.  `NeuroMLHdf5Parser`: `nml_doc_extra_elements` / `optimizedNetwork` (and, for
+    the analysis, `doc_id` / `doc_notes`) are assigned only if the file has the matching attribute / group; the cursor
+    fields are put back by `end_group` and stay dirty when a parse dies half way.  Empty once
+    `fixes/C07-parser-builder-reuse.patch` is applied. -/
+def KnownReuse : List String := [
+  "NetworkBuilder.input_lists", "NetworkBuilder.network", "NetworkBuilder.populations",
+  "NetworkBuilder.projection_syns", "NetworkBuilder.projection_syns_pre", "NetworkBuilder.projection_types",
+  "NetworkBuilder.projections", "NetworkBuilder.weightDelays",
+  "NeuroMLHdf5Parser.currInputList", "NeuroMLHdf5Parser.currOptInputList", "NeuroMLHdf5Parser.currOptPopulation",
+  "NeuroMLHdf5Parser.currOptProjection", "NeuroMLHdf5Parser.currPopulation", "NeuroMLHdf5Parser.currentComponent",
+  "NeuroMLHdf5Parser.currentPreSynapse", "NeuroMLHdf5Parser.currentProjectionId",
+  "NeuroMLHdf5Parser.currentProjectionPostPop", "NeuroMLHdf5Parser.currentProjectionPrePop",
+  "NeuroMLHdf5Parser.currentProjectionType", "NeuroMLHdf5Parser.currentSynapse", "NeuroMLHdf5Parser.doc_id",
+  "NeuroMLHdf5Parser.doc_notes", "NeuroMLHdf5Parser.nml_doc_extra_elements", "NeuroMLHdf5Parser.optimizedNetwork"]
+
+theorem c07_reuse_table_wf : NmlVerif.Gen.Handlers.reuseTable.wf = true := by decide
+
+/-- **no per-object state that the next use may see, outside the open finding** -/
+theorem c07_reuse_table_ok :
+    NmlVerif.Gen.Handlers.reuseTable.okModulo NmlVerif.Gen.Handlers.names (KnownReuse ++ []) = true := by decide
+
+/-- **the n-th use of one object = its first use**, for every use whose read-first attributes are not part of the
+    open finding (today: `NeuroMLXMLParser.parse`; with the repair: all three): for every semantics respecting the
+    extracted per-object summaries, the result after any two histories of uses of the SAME objects is the same -/
+theorem c07_reuse_history_independent (sem : EntrySummary → A → GState V → GState V × R)
+    (hsem : ∀ e ∈ NmlVerif.Gen.Handlers.reuseTable.entries, ∀ a, Respects (sem e a) e.rbw e.writes)
+    (e : EntrySummary) (he : e ∈ NmlVerif.Gen.Handlers.reuseTable.entries)
+    (hk : ∀ v ∈ e.rbw, ∀ s, NmlVerif.Gen.Handlers.names[v]? = some s → s ∉ KnownReuse) (a : A)
+    (h h' : List (Call A)) (hh : ∀ c ∈ h, c.entry ∈ NmlVerif.Gen.Handlers.reuseTable.entries)
+    (hh' : ∀ c ∈ h', c.entry ∈ NmlVerif.Gen.Handlers.reuseTable.entries) (g : GState V) :
     (sem e a (runHist sem h g)).2 = (sem e a (runHist sem h' g)).2 :=
-  c07_history_independent_inv _ Inv _ sem hsem e he
-    (entry_ok_of_okModulo _ _ Known Benign c07_table_ok e he hk) a h h' hh hh' g hg
+  c07_history_independent_inv _ (fun _ => True) _ sem (fun e he a => (hsem e he a).toInv) e he
+    (entry_ok_of_okModulo _ _ KnownReuse [] c07_reuse_table_ok e he hk) a h h' hh hh' g trivial
+
+/-- the hypothesis `hk` is satisfiable on the tree under test: the use `NeuroMLXMLParser.parse` reads first no
+    attribute of the open finding -/
+example : ∃ e ∈ NmlVerif.Gen.Handlers.reuseTable.entries,
+    NmlVerif.Gen.Handlers.names[e.name]? = some "NeuroMLXMLParser.parse" ∧
+    ∀ v ∈ e.rbw, ∀ s, NmlVerif.Gen.Handlers.names[v]? = some s → s ∉ KnownReuse := by decide
+
+/-- **the repaired statements at the tree under test**: when the translator finds that `handle_document_start` /
+    `parse` assign everything later steps read, the full reuse statements hold for the extracted variant -/
+theorem c07_reuse_tree :
+    (NmlVerif.Gen.Handlers.builderResets = true → c07_builder_reuse_full NmlVerif.Gen.Handlers.builderResets) ∧
+    (NmlVerif.Gen.Handlers.parserResets = true → c07_parser_reuse_full NmlVerif.Gen.Handlers.parserResets) :=
+  ⟨fun h => h ▸ c07_builder_reuse_repaired, fun h => h ▸ c07_parser_reuse_repaired⟩
 
 end NmlVerif.C07
